@@ -30,7 +30,7 @@ man = dict(
     setup_cmd="sh ./setup.sh",
     hooks=dict(
         guard="verif",
-        enable="go build -tags verif -overlay /verif/.build/overlay.json ./cmd/verif_<id>  (files under /verif/harness/overlay are injected; nothing is written under /repo)",
+        enable="go build -tags verif,vi_<pkg>_<name>,... -overlay /verif/.build/overlay_<tree>.json ./cmd/verif_<id>  (files under /verif/harness/overlay are injected by the overlay; nothing is written under /repo; every add-only export file has its own vi_* tag and a panicking _stub.go sibling, see DESIGN.md 8.1f)",
         baseline_off_cmd="sh /verif/check/baseline.sh",
         source_commits=[],
         add_only=True,
